@@ -18,6 +18,8 @@ type Item struct {
 	Method string `json:"method,omitempty"` // HTTP
 	Path   string `json:"path,omitempty"`
 	Body   []byte `json:"body,omitempty"`
+	Chunked bool  `json:"chunked,omitempty"` // send the body with Transfer-Encoding: chunked (no Content-Length)
+	CType  string `json:"ctype,omitempty"`   // Content-Type header ("" = none)
 }
 
 // Session is one case: a fresh host, how commands reach it, the items.
@@ -35,6 +37,39 @@ var (
 	feeds  = []string{"video0", "audio0", "data", "a\"b", "/x"}
 )
 
+// the reserved words of the interface, padded, in other cases and as look-alikes: a guard that compares one
+// spelling while the action uses another is found by these
+var reserved = []string{"apiRule", "all", "deleteAll"}
+
+func lookalike(r *lib.Rng) string {
+	w := reserved[r.Intn(len(reserved))]
+	switch r.Intn(12) {
+	case 0:
+		return " " + w
+	case 1:
+		return w + " "
+	case 2:
+		return w + "\n"
+	case 3:
+		return "\t" + w
+	case 4:
+		return strings.ToUpper(w)
+	case 5:
+		return strings.ToLower(w)
+	case 6:
+		return strings.Title(w)
+	case 7:
+		return w + "\x00"
+	case 8:
+		return "/" + w
+	case 9:
+		return w + "/"
+	case 10:
+		return w + w
+	}
+	return w
+}
+
 func jstr(s string) string { b, _ := json.Marshal(s); return string(b) }
 
 // jraw writes a string as a JSON string WITHOUT HTML escaping and keeping it readable
@@ -48,6 +83,9 @@ func jraw(s string) string {
 
 func destRule(r *lib.Rng) string {
 	id := idPool[r.Intn(len(idPool))]
+	if r.Chance(1, 5) {
+		id = lookalike(r)
+	}
 	stream := r.Pick([]string{"video0", "/video0", "stream/large", "/stream/large", "api", "", "//x", "a\"b"})
 	dest := r.Pick([]string{"ws://127.0.0.1:9/in/video0", "ws://127.0.0.1:9/a\"b", "", "http://127.0.0.1:9/x", "%%", "ws://user:pw@127.0.0.1:9/x"})
 	m := []string{`"id":` + jraw(id), `"stream":` + jraw(stream), `"destination":` + jraw(dest)}
@@ -62,6 +100,9 @@ func destRule(r *lib.Rng) string {
 
 func streamRule(r *lib.Rng) string {
 	name := r.Pick([]string{"stream/large", "/stream/large", "video", "a\"b", "", "deleteAll", "all", "stream/x\\y"})
+	if r.Chance(1, 5) {
+		name = lookalike(r)
+	}
 	switch r.Intn(6) {
 	case 0:
 		return `{"stream":` + jraw(name) + `}`
@@ -140,6 +181,11 @@ func genCommand(r *lib.Rng) ([]byte, string) {
 	if verb == "delete" && r.Chance(1, 6) {
 		which = r.Pick([]string{"all", "deleteAll", "apiRule"})
 	}
+	lookalikeWhich := false
+	if verb != "add" && r.Chance(1, 5) {
+		which = lookalike(r)
+		lookalikeWhich = true
+	}
 	fam := []string{verb, what}
 	var parts []string
 	add := func(s string) {
@@ -152,6 +198,8 @@ func genCommand(r *lib.Rng) ([]byte, string) {
 	if verb != "add" || r.Chance(1, 4) {
 		add(member(r, "which", which, &fam))
 		switch {
+		case lookalikeWhich:
+			fam = append(fam, "which-reserved-lookalike")
 		case strings.ContainsAny(which, "\"\\\n\t\x7f") || strings.Contains(which, " "):
 			fam = append(fam, "which-needs-quoting")
 		case which == "all" || which == "deleteAll" || which == "apiRule" || which == "":
@@ -275,7 +323,14 @@ func genHTTP(r *lib.Rng) Item {
 			body = []byte(destRule(r))
 		}
 	}
-	return Item{Kind: "http", Method: m, Path: p, Body: body, Family: fam}
+	it := Item{Kind: "http", Method: m, Path: p, Body: body, Family: fam}
+	// how the body travels: with Content-Length or chunked; with, without or with a wrong Content-Type
+	if r.Chance(1, 2) {
+		it.Chunked = true
+		it.Family += "/chunked"
+	}
+	it.CType = r.Pick([]string{"application/json", "application/json", "", "text/plain", "application/x-www-form-urlencoded", "multipart/form-data; boundary=x"})
+	return it
 }
 
 func genSession(r *lib.Rng, nCmd, nHTTP int, mode string) Session {
